@@ -113,8 +113,7 @@ Definition prune_eligible (c : cfg) (e : event) (m : msg) : bool :=
   prunes (ev_op e) && (0 <? c_prune_iv c) &&
   (prune_age_eligible c now m
    || (st_eqb (m_st m) Dead && (0 <? c_dlq_depth c) && (c_dlq_depth c <? dead_count (ev_before e))
-       && forallb (fun d => negb (st_eqb (m_st d) Dead) || (m_recv m <=? m_recv d)) (ev_after e))
-   || (is_dequeue (ev_op e) && expired now m && (0 <? c_ret_age c) && (m_recv m <=? now - c_ret_age c))).
+       && forallb (fun d => negb (st_eqb (m_st d) Dead) || (m_recv m <=? m_recv d)) (ev_after e))).
 
 (** ** C02: conservation and legal transitions *)
 Definition coherent (m : msg) : bool :=
